@@ -872,13 +872,15 @@ pub fn run_probe_session(seed: u64, run: u64, prop: &str) -> Acc {
             acc.count("session_with_a_game_of_more_than_1024_plies");
         }
         g
+    } else if rng.chance(1, 8) {
+        workload::Game { start: workload::template_en_passant(&mut rng), moves: vec![], source: "tmpl-ep" }
     } else {
         workload::gen_game(&mut rng, 30)
     };
     let mut games: Vec<workload::Game> = vec![];
     let n = 1 + rng.below(4);
     for _ in 0..n {
-        let g = match rng.below(8) {
+        let g = match rng.below(9) {
             0 => workload::Game { start: base.start.clone(), moves: vec![], source: "" },
             1 => {
                 let k = rng.below(base.moves.len() as u64 + 1) as usize;
@@ -892,6 +894,46 @@ pub fn run_probe_session(seed: u64, run: u64, prop: &str) -> Acc {
                 workload::Game { start, moves, source: "" }
             }
             4 => workload::Game { start: workload::gen_position(&mut rng), moves: vec![], source: "" },
+            7 => {
+                // the previous FEN again with ONE field changed: the en-passant target removed or
+                // added, a castling right dropped, or the side to move flipped (whatever the
+                // engine remembers about a FEN must cover all of its fields)
+                let prev = games.last().map(|g: &workload::Game| g.start.clone()).unwrap_or_else(|| base.start.clone());
+                let mut s2 = prev.clone();
+                match rng.below(3) {
+                    0 | 1 => {
+                        if s2.ep.is_some() {
+                            s2.ep = None;
+                        } else {
+                            for f in 0..8 {
+                                let e = if s2.white_to_move { r::sq(f, 5) } else { r::sq(f, 2) };
+                                let mut q = s2.clone();
+                                q.ep = Some(e);
+                                if q.is_legal_position() {
+                                    s2 = q;
+                                    break;
+                                }
+                            }
+                        }
+                    }
+                    _ => {
+                        if let Some(i) = (0..4).find(|i| s2.castle[*i]) {
+                            s2.castle[i] = false;
+                        } else {
+                            let mut q = s2.clone();
+                            q.white_to_move = !q.white_to_move;
+                            q.ep = None;
+                            if q.is_legal_position() {
+                                s2 = q;
+                            }
+                        }
+                    }
+                }
+                if s2 != prev {
+                    acc.count("session_same_fen_with_one_field_changed");
+                }
+                workload::Game { start: s2, moves: vec![], source: "" }
+            }
             5 | 6 => {
                 // the SAME move list from a DIFFERENT start position: remove a bystander piece
                 // (or flip a castling right) so that every move of the list stays legal
